@@ -1,4 +1,5 @@
 import ZChain.Proofs.OrderBuffer
+import ZChain.Generated.C46
 /-!
 # C46 — The ordered block buffer yields blocks lowest round first
 
@@ -154,6 +155,22 @@ theorem repeat_ignores_round_illformed :
 /-- Popping until empty yields rounds in non-decreasing order (corollary of the invariant). -/
 theorem drain_sorted (b : OB) (hs : Sorted b.buf) :
     b.buf.Pairwise (fun a c => a.round ≤ c.round) := hs
+
+/-! ### concurrent use
+The sequential theorems above describe every *schedule* only if each method call is one atomic step.
+That is a fact about the Go source, regenerated on every run by `harness/cmd/xc46` into
+`Generated/C46.lean`: the mutex is an exclusive `sync.Mutex`, every exported method runs its whole body
+between `mu.Lock()` and the deferred `mu.Unlock()`, and the only other method (`search`) never touches the
+mutex and is unexported (it is called from `Add` under the lock). Given that, any concurrent history is
+equivalent to the sequential history in lock-acquisition order (linearizability by mutual exclusion), and
+`reachable_inv`, `pop_is_min`, … apply to it. The harness additionally stress-runs concurrent producers and
+consumers against the real buffer (a search, not a proof). -/
+open ZChain.Generated.C46 in
+theorem methods_atomic :
+    mutexType = "sync.Mutex" ∧
+    (∀ m ∈ methods, m.2.1 = true → m.2.2.1 = true) ∧
+    (∀ m ∈ methods, m.2.1 = false → m.2.2.2 = false) ∧
+    (methods.map (·.1)) = ["Add", "First", "Pop", "search"] := by decide
 
 -- non-vacuity: a concrete non-trivial reachable state satisfies the hypotheses used above
 example : Inv (run (new 3) [.add 5 1, .add 2 2, .add 9 3, .add 4 4, .pop]) := (reachable_inv 3 _).1
